@@ -192,6 +192,13 @@ def didUploadFile (db : Db K) (cap path : Bytes) (mtime ctime size now : Int) : 
     lastUpload := put fid ⟨now, now⟩ db1.lastUpload
     localFiles := put path ⟨size, mtime, ctime, fid⟩ db1.localFiles }
 
+/-- `FileResult.did_upload(filecap)`: **the specification of what an upload records** — the size, mtime and
+    ctime that the `check_file` call which produced this result sampled *before* the file was read for the
+    upload (`self.bdb.did_upload_file(filecap, self.path, self.mtime, self.ctime, self.size)`), never a stat
+    taken afterwards: a write that lands while the upload is in flight must make the next `check_file` differ. -/
+def FileResult.didUpload (r : FileResult) (db : Db K) (cap : Bytes) (now : Int) : Db K :=
+  didUploadFile db cap r.path r.mtime r.ctime r.size now
+
 /-- `did_check_file_healthy(filecap, results)`: `UPDATE last_upload SET last_checked=? WHERE fileid=?` -/
 def didCheckFileHealthy (db : Db K) (cap : Bytes) (now : Int) : Db K :=
   let (db1, fid) := alloc db cap
